@@ -42,6 +42,20 @@ How a polynomial identity is decided by evaluation
   `orderl{l}.eccentricity_funcs_trunc{N}` / `eccentricity_funcs_l{l}_trunc{N}` are internal names: checked
   when present, skipped with a `route:*_absent` label otherwise.
 
+Argument forms (the documented type is FloatArray = float | ndarray)
+  Every table route (dict entry, by-name, package alias) and every lookup helper is additionally run, in
+  every tier, on the interpreted twin with ndarray eccentricities of length 1, length 5 and 0-d
+  (`_array_route_py`, label `array_py`): each element must equal the exact oracle (compiled-value
+  tolerance) AND the float route of the same function (SAME_RTOL x scale; measured: bit-identical or 1 ulp),
+  and the caller's array must be bit-for-bit unchanged (`input_array_modified`).  The interpreted twin is the
+  source numba compiles (same in-place/aliasing semantics), needs no compilation and therefore covers ALL
+  l = 2..7 and N even in the quick tier; this is what bounds the compile cost.  Generated cases add
+  `kind: interp` (twin, all l and N, forms scalar | array | array0d) next to `kind: compiled`, where the
+  compiled code sees scalar, array and (N <= 4 in quick, all N in thorough) 0-d array arguments; quick
+  compiles l <= 3 at every N and all l <= 7 at N <= 4 (a few seconds), thorough everything.
+  Found by this: seeded change C08-3 (closed-form denominator built with `denominator = base; denominator *=
+  base` - exact for floats, squares the shared buffer for ndarrays, l = 7 closed-form cells only).
+
 Oracles
   exact      `oracles.hansen`: X^{n,m}_k from the eccentric-anomaly integral expanded as a Laurent
              polynomial in exp(iE) with power-series-in-e rational coefficients, order 24.  For the
@@ -123,7 +137,9 @@ LEVEL_TEXT = ('Every coefficient of every published table cell (61 tables, ~5 40
               'code is compared with the exact value at generated (l,N,e) points only (exploration, not for all doubles).')
 LEVEL_NOTE = ('Trusts: the independent Hansen oracle (self-tested against textbook series, closed forms and mpmath quadrature on '
               'every run), python fractions, that `.py_func` is the source numba compiles, and "all orders" for closed-form '
-              'cells means through e^40.  The compiled part covers l <= 3 in the quick tier and all l in the thorough tier.')
+              'cells means through e^40.  The ndarray argument route of every table/helper is exercised on the interpreted '
+              'twin (3 shapes) in every tier; the COMPILED code is exercised for l <= 3 (all N) and l <= 7 (N <= 4) in the '
+              'quick tier and for all l, N in the thorough tier.')
 CASES = {'quick': 16000, 'thorough': 400000}
 SHARDS = {'quick': 16, 'thorough': 16}
 TIMEOUT = {'quick': 1500, 'thorough': 4 * 3600}
@@ -143,8 +159,10 @@ COMPILED_LMAX = {'quick': 3, 'thorough': 7}
 
 RULE = ('Enumerated (fixed cases, complete): one case per published table (l,N) - dispatcher dict entry and by-name function run '
         'on an exact series argument, all p=0..l, |q|<=N/2+2 compared coefficient by coefficient - and one case per lookup '
-        'helper (N,l_max), all levels l<=l_max.  Generated (Hypothesis): path in {dispatch, lookup}, N, l (quick: l<=3), '
-        'scalar e or array of 1..5 e, e in [0,0.9] (mixture: 0, uniform, near 0, near 0.9); compiled value vs exact rational '
+        'helper (N,l_max), all levels l<=l_max; each also on ndarray arguments (len 1, len 5, 0-d) of the interpreted '
+        'twin vs oracle and vs float route, input array unchanged.  Generated (Hypothesis): kind in {compiled (quick: l<=3, '
+        'or l<=7 at N<=4), interp (all l,N)}, path in {dispatch, lookup}, N, l, '
+        'scalar e, 0-d array or array of 1..5 e, e in [0,0.9] (mixture: 0, uniform, near 0, near 0.9); compiled value vs exact rational '
         'value.  Non-trivial: enumerated case with >=1 present non-zero cell; generated case with at least one e>0 (at e=0 '
         'only constant terms are exercised).  Distinct = distinct case dict (hash).')
 ASSUMPTIONS = ['G_lpq(e) = X^{-(l+1),(l-2p)}_{l-2p+q}(e) (Kaula 1966), oracle in oracles/hansen.py, exact rationals',
